@@ -198,6 +198,9 @@ def run(rep, facts):
         return gens, kills
     must = common.must_dataflow(g, frozenset(), effect)
 
+    def in_close(n):
+        return any(fr.body.npath.startswith("async_io::Request::close") for fr in n.frame.stack())
+
     epi_writes = 0
     for n in g.all_nodes():
         if n.key not in must:
@@ -206,7 +209,7 @@ def run(rep, facts):
         nm = name_of(n)
         st = must[n.key]
         cst = ins.get(n.key, frozenset())
-        if e is not None and e[0] == 'WRITE' and e[2] is not None and n.frame.body.npath.startswith("async_io::Request::close"):
+        if e is not None and e[0] == 'WRITE' and e[2] is not None and in_close(n):
             cls = E.subject_class(e[2])
             if cls == 'epilogue':
                 epi_writes += 1
@@ -264,7 +267,7 @@ def run(rep, facts):
                 rep.violation("R7.3", "close/epilogue-streams", "stream list is %s, expected output_streams() or empty" % sorted(kinds), n.loc())
             else:
                 rep.ok("R7.3", "close/epilogue-streams", "stream list is role.output_streams() or empty", n.loc())
-        if nm == "protocol::fields::Role::output_streams" and n.frame.body.npath.startswith("async_io::Request::close"):
+        if nm == "protocol::fields::Role::output_streams" and in_close(n):
             if "W" not in st:
                 rep.violation("R7.3", "close/streams-iff-writeable", "output stream end records selected without testing `writeable`", n.loc())
             else:
